@@ -28,7 +28,7 @@ use lexer_mode::{
 
 use numeric::{try_parse_decimal, try_parse_hex_integer, NumericParserResult};
 #[cfg(feature = "macro_sep")]
-use r#macro::needs_macro_sep;
+use r#macro::{may_need_macro_sep, needs_macro_sep};
 use r#macro::{
     get_macro_resolve_ops_from_amps, is_macro_amp, is_macro_eval_logical_op,
     is_macro_eval_mnemonic, is_macro_eval_quotable_op, is_macro_percent,
@@ -4635,12 +4635,18 @@ impl Lexer<'_> {
             // Also, we do not emit macro sep in string expressions and macro
             // args, which can't have labels, so the logic is directly here
             // and not checked by the shared `needs_macro_sep` fn
-            if needs_macro_sep(
-                self.buffer
-                    .last_token_info_on_default_channel()
-                    .map(|ti| ti.token_type),
-                kw_tok_type.into(),
-            ) && self.mode_stack.last().map_or(true, |m| {
+            //
+            // The look-behind walks back over all trailing hidden tokens, so only do it
+            // for the keywords that may need a separator at all - otherwise a long run
+            // of e.g. `%str()` calls (hidden tokens only) makes lexing quadratic
+            if may_need_macro_sep(kw_tok_type.into())
+                && needs_macro_sep(
+                    self.buffer
+                        .last_token_info_on_default_channel()
+                        .map(|ti| ti.token_type),
+                    kw_tok_type.into(),
+                )
+                && self.mode_stack.last().map_or(true, |m| {
                 !matches!(
                     m,
                     LexerMode::StringExpr { .. }
